@@ -69,25 +69,25 @@ Section Sd.
         try (intros x Hx; apply Hv; rewrite !in_app_iff; tauto);
         try (intros x Hx; apply Hf; rewrite !in_app_iff; tauto).
     - cbn [vars fnames] in *.
-      assert (Hl : evalt_list b (map (subst sb) l) = evalt_list a l).
-      { induction IH as [|e1 l H1 _ IHl]; [reflexivity|]. cbn [map TransformSem.evalt_list].
-        rewrite H1, IHl; try reflexivity;
-          intros x Hx; first [apply Hv|apply Hf]; cbn [flat_map app] in *; rewrite ?in_app_iff in *; tauto. }
+      assert (Hall : Forall (fun e => evalt b (subst sb e) = evalt a e) l).
+      { induction IH as [|e1 l H1 _ IHl]; constructor.
+        - apply H1; intros x Hx; first [apply Hv|apply Hf]; cbn [flat_map app] in *; rewrite ?in_app_iff in *; tauto.
+        - apply IHl; intros x Hx; first [apply Hv|apply Hf]; cbn [flat_map app] in *; rewrite ?in_app_iff in *; tauto. }
       destruct (is_lazy o) eqn:Ho.
       + destruct o; try discriminate; cbn [subst].
-        * clear Hl. induction IH as [|e1 l H1 _ IHl]; [reflexivity|]. cbn [map].
+        * clear Hall. induction IH as [|e1 l H1 _ IHl]; [reflexivity|]. cbn [map].
           rewrite !evalt_and_cons. rewrite H1, IHl; try reflexivity;
             intros x Hx; first [apply Hv|apply Hf]; cbn [flat_map app] in *; rewrite ?in_app_iff in *; tauto.
-        * clear Hl. induction IH as [|e1 l H1 _ IHl]; [reflexivity|]. cbn [map].
+        * clear Hall. induction IH as [|e1 l H1 _ IHl]; [reflexivity|]. cbn [map].
           rewrite !evalt_or_cons. rewrite H1, IHl; try reflexivity;
             intros x Hx; first [apply Hv|apply Hf]; cbn [flat_map app] in *; rewrite ?in_app_iff in *; tauto.
       + assert (Es : subst sb (ENary o l) =
                      ENary (match o with NCall f kw => NCall (subst_name sb f) kw | o => o end) (map (subst sb) l))
           by (destruct o; reflexivity).
         rewrite Es. destruct o as [| | | | | |f kw]; try discriminate;
-          try (rewrite !evalt_strict by reflexivity; now rewrite Hl).
+          try (rewrite !evalt_nary by reflexivity; now rewrite (nfold_map F _ (subst sb) l a b _ Hall)).
         rewrite subst_name_other by (apply Hf; now left).
-        rewrite !evalt_strict by reflexivity. now rewrite Hl.
+        rewrite !evalt_nary by reflexivity. now rewrite (nfold_map F _ (subst sb) l a b _ Hall).
   Qed.
 
   Lemma evalt_list_subst sb N a b l :
